@@ -35,6 +35,11 @@ far:
 image_end:
 data_end:
 '''
+EMPTY = '''# nothing to emit
+START = 0x20000000
+    # (indented comment)
+
+'''
 FAULT = {'read': 'include nothere.asm', 'parse': 'frobnicate x1, x2', 'constants': 'KX = NOCONST + 1', 'compress': 'add x8, x8, q9',
          'pseudo': 'li x5, NOCONST', 'immediates': 'beq x1, x2, NOWHERE', 'encode': 'addi x5, x5, 5000', 'data': 'dh 70000'}
 OLD = {'out': b'OLD-OUT\n', 'lab': b'OLD-LAB\n', 'hex': b'OLD-HEX\n'}
@@ -102,12 +107,18 @@ def _scenario(args):
             os.makedirs(os.path.join(root, 'work'))
             t = sc['trouble']
             src = GOOD
+            shape = 'full'
+            if not t.startswith('asm-') and t != 'hex-toolarge' and not sc.get('incdefs') and rng.random() < 0.2:   # (whether an offset is too large depends on the size)
+                # a program that emits nothing (constants and comments only) / a single byte: the files must still be
+                # (re)written - an empty binary, an empty label file, a hex file holding no data
+                shape = rng.choice(['empty', 'onebyte'])
+                src = EMPTY if shape == 'empty' else EMPTY + 'only:\n    db 0x5a\n'
             if sc.get('incdefs'):
                 src = 'include GD32VF103.asm\n' + src + 'dw GPIO_BASE_ADDR_C\n'
             if sc['incdir']:
                 with open(os.path.join(root, 'inc', 'defs.asm'), 'w') as f:
                     f.write('DEFK = 7\n')
-                src = 'include defs.asm\n' + src + 'db DEFK\n'
+                src = 'include defs.asm\n' + src + ('db DEFK\n' if shape == 'full' else '')
             if t.startswith('asm-'):
                 lines = src.splitlines()
                 lines.insert(rng.randrange(3, len(lines)), FAULT[t[4:]])
@@ -209,7 +220,7 @@ def _scenario(args):
                         problems.append('HexWellFormed')
                     else:
                         hexrow = {'bytes': list(rec['out']), 'oh': offset >> 16, 'ol': offset & 0xffff, 'recs': recs}
-            res.append({'sc': sc, 'argv': argv, 'inproc': inproc, 'stale_older_files': stale, 'exit': code, 'exit_expected': exit_exp, 'state': state, 'state_expected': fs_exp,
+            res.append({'sc': sc, 'shape': shape, 'argv': argv, 'inproc': inproc, 'stale_older_files': stale, 'exit': code, 'exit_expected': exit_exp, 'state': state, 'state_expected': fs_exp,
                         'effects': effects, 'effects_expected': eff_exp, 'extra': extra, 'problems': sorted(set(problems)), 'stderr': errtext[-300:], 'hexrow': hexrow})
     os.chdir(base)
     shutil.rmtree(root, ignore_errors=True)
@@ -284,6 +295,10 @@ def c17(run, scratch):
     run.coverage['subprocess_runs'] = sum(1 for r_ in results if not r_['inproc'])
     run.coverage['drift'] = drift
     run.coverage['exhaustive'] = True
+    nsmall = sum(1 for res in results if res.get('shape') != 'full' and res['exit_expected'] == 0)
+    if nsmall < 20:
+        raise tlc.TlcFailure('non-vacuity: only %d successful runs of an empty / one-byte program' % nsmall)
+    run.coverage['runs_of_empty_or_one_byte_programs'] = nsmall
     nstale = sum(1 for res in results if res.get('stale_older_files'))
     if nstale < 40:
         raise tlc.TlcFailure('non-vacuity: only %d runs over look-alike older files' % nstale)
